@@ -610,10 +610,10 @@ def main():
     rng = run.rng("trees")
     ops = op_trees(thorough, rng)
     syn = Syn(rng)
-    nsyn = run.size(2500, 250000)
+    nsyn = run.size(15000, 250000)
     syn_trees = [syn.term(rng.randrange(2, 14 if not thorough else 40)) for _ in range(nsyn)]
     sem_trees = []
-    for _ in range(run.size(800, 60000)):
+    for _ in range(run.size(5000, 60000)):
         g = G.Gen(rng, max_size=rng.randrange(6, 30))
         sem_trees.append(g.program(rng.choice(["n", "a", "o"])))
     tasks = []
@@ -624,7 +624,7 @@ def main():
             if part:
                 tasks.append(("rt", (run.seed, i, part, label)))
     for i in range(16):
-        tasks.append(("misc", (run.seed, i, run.size(20, 600))))
+        tasks.append(("misc", (run.seed, i, run.size(60, 600))))
     evals = 0
     modes = {}
     acc = rej = short = reject_ok = 0
